@@ -89,7 +89,7 @@ class C12(vlib.Spec):
     prop = "C12"
     lean_modules = ["Banyan.Props.C12", "Banyan.Tie.C12"]
     theorems = ["Banyan.C12." + t for t in [
-        "int64_ordered", "int64_roundtrip", "int32_ordered", "int32_roundtrip", "int64ToBytes_injective",
+        "int64_ordered", "int64_roundtrip", "int16_roundtrip", "int32_ordered", "int32_roundtrip", "int64ToBytes_injective",
         "float64_roundtrip", "float64_ordered", "float64_lt_imp", "float64_legacy_counterexample",
         "float64_legacy_nan_counterexample", "float64_legacy_partial",
         "entity_value_roundtrip", "series_roundtrip", "series_marshal_injective", "seriesID_deterministic"]] + [
@@ -128,6 +128,8 @@ class C12(vlib.Spec):
             r = rng.random()
             b = rng.choice(F64) if r < 0.4 else ((a + rng.choice([-1, 1])) % 2**64 if r < 0.6 else (a ^ (1 << 63) if r < 0.7 else rng.getrandbits(64)))
             out.append("f64 %016x %016x" % (a, b))
+        for _ in range(n // 40):
+            out.append("i16 %d" % (rng.choice([0, 1, -1, 127, 128, -128, 255, 256, 32767, -32768]) if rng.random() < 0.5 else rng.randrange(-2**15, 2**15)))
         m = n - len(out)
         for _ in range(m // 2):
             s = rand_series(rng)
@@ -153,6 +155,8 @@ class C12(vlib.Spec):
             if (o[0] == o[1]) != (a == b):
                 return ("violation", "%s encoding not injective" % f[0])
             return None
+        if f[0] == "i16":
+            return None if int(o[1]) == int(f[1]) else ("violation", "int16 round trip: %s -> %s" % (f[1], o[1]))
         if f[0] == "f64":
             a, b = int(f[1], 16), int(f[2], 16)
             if int(o[3], 16) != a:
